@@ -2,16 +2,21 @@ package rules
 
 import (
 	"fmt"
+	"go/ast"
 	"go/token"
 	"go/types"
 	"sort"
+	"strings"
 
 	"lachk/core"
 )
 
-func init() {
-	extraExtensions = append(extraExtensions, ext{"C28", c28SplitRMW})
-}
+var _ = fmt.Sprint
+var _ ast.Node
+var _ token.Pos
+var _ types.Object
+var _ = sort.Strings
+var _ = strings.TrimSpace
 
 // c28SplitRMW: a read-modify-write of guarded state must happen inside one critical section. The rule
 // looks for the lost-update shape: within one operation, a first critical section of mutex M reads a
